@@ -69,11 +69,16 @@ pub fn action_menu(h: u32) -> Vec<MenuItem> {
         mi("macro-cop", "(macro-cancel-on-press x 3 y 3 z)"),
         mi("macro-rep-cop", "(macro-repeat-cancel-on-press x 3 y)"),
         mi("macro-vk", "(macro x (on-press tap-vkey v1) 2 y)"),
+        mi("macro-2custom", "(macro mlft mlft)"),
+        mi("macro-custom-tail", "(macro x (unicode ü) (unicode ü))"),
+        mi("macro-relc-custom", "(macro-release-cancel y mlft 5 z)"),
         mi("unicode", "(unicode ü)"),
         mi("fork", "(fork x y (lsft rsft))"),
         mi("fork-th", &format!("(fork (tap-hold {h} {h} x lctl) y (lsft))")),
         mi("switch", "(switch ((or b lsft)) y break ((key-history c 1)) z fallthrough () x break)"),
         mi("switch-timing", "(switch ((key-timing 1 lt 4)) y break () x break)"),
+        mi("switch-timing-gt", "(switch ((key-timing 1 gt 30)) y break () x break)"),
+        mi("switch-timing-both", "(switch ((key-timing 1 lt 4)) y break ((key-timing 1 gt 30)) z break () x break)"),
         mi("switch-input", "(switch ((input real b)) y break ((input-history real c 2)) z break () x break)"),
         mi("switch-layer", "(switch ((layer nav)) y break ((base-layer base)) z break)"),
         mi("unmod", "(unmod x)"),
